@@ -205,7 +205,16 @@ def run_unit(unit, tier, seed):
             res.bounded['evaluations'] = res.bounded.get('evaluations', 0) + extra
             res.bounded['bound'] = (res.bounded.get('bound') or '') + ' [x3 seeds]'
     except Exception as e:
-        res.errors.append('bounded stand-in crashed: %s\n%s' % (e, traceback.format_exc()))
+        tb = traceback.extract_tb(e.__traceback__)
+        inner = tb[-1].filename if tb else ''
+        if inner.startswith(os.path.join(REPO, 'minecraft')):
+            # the LIBRARY raised, in a call the harness makes on every run and that succeeds on the unchanged tree: that is
+            # an observation about the code under test (undecided - the harness cannot say which property it breaks), not a
+            # defect of the checker
+            res.undecided.append('bounded stand-in: the library raised %r at %s:%d in a call that the harness makes unguarded'
+                                 % (e, os.path.relpath(inner, REPO), tb[-1].lineno))
+        else:
+            res.errors.append('bounded stand-in crashed: %s\n%s' % (e, traceback.format_exc()))
     res.wall = time.time() - t0
     return res
 
